@@ -24,7 +24,7 @@ fn aux_publish(p: Publication<'_, &[u8]>) -> Option<CPacket> {
     );
     let spec = ConnectSpec::default();
     let cidx = world.borrow_mut().open_conn(&spec);
-    let io = SimIo { world: world.clone(), conn: cidx };
+    let io = SimIo::new(&world, cidx);
     let opts = OpOpts { cancel_at: None, deadline: u64::MAX };
     let mut pend = 0;
     let conn = {
